@@ -77,6 +77,16 @@ func checkC16(r *core.Run) {
 				}
 				return !stores
 			})
+			if !stores && fd.Type.Results != nil {
+				// or a helper that returns an opcode list (its result is what a caller stores)
+				for _, f := range fd.Type.Results.List {
+					if sl, ok := info.TypeOf(f.Type).(*types.Slice); ok {
+						if nm, ok := sl.Elem().(*types.Named); ok && nm.Obj().Name() == "Opcode" && opField.Type().(*types.Slice).Elem() == sl.Elem() {
+							stores = true
+						}
+					}
+				}
+			}
 			if !stores {
 				return
 			}
@@ -276,6 +286,53 @@ func stripConv(v ssa.Value) ssa.Value {
 
 func sortedValue(arg ssa.Value) ssa.Value { return stripConv(arg) }
 
+// sortedByNameAt: the slice value v is name-sorted when instruction `at` of fn executes: either a
+// sort.Sort/Stable(ByName(v)) of that very value dominates `at`, or v is the result of a module
+// function all of whose returns return a slice that is name-sorted at the return (helper idiom).
+func sortedByNameAt(fn *ssa.Function, v ssa.Value, at ssa.Instruction, depth int) bool {
+	v = stripConv(v)
+	for _, b2 := range fn.Blocks {
+		for _, i2 := range b2.Instrs {
+			call, ok := i2.(*ssa.Call)
+			if !ok {
+				continue
+			}
+			callee := call.Call.StaticCallee()
+			if callee == nil || callee.Pkg == nil || callee.Pkg.Pkg.Path() != "sort" || (callee.Name() != "Sort" && callee.Name() != "Stable") {
+				continue
+			}
+			if len(call.Call.Args) != 1 {
+				continue
+			}
+			if sortedValue(call.Call.Args[0]) == v && strings.HasSuffix(sortArgType(call.Call.Args[0]), "ByName") && instrDominates(call, at) {
+				return true
+			}
+		}
+	}
+	if depth >= 3 {
+		return false
+	}
+	if call, ok := v.(*ssa.Call); ok {
+		callee := call.Call.StaticCallee()
+		if callee == nil || !core.InModule(callee) || len(callee.Blocks) == 0 || callee.Signature.Results().Len() != 1 {
+			return false
+		}
+		nret := 0
+		for _, b := range callee.Blocks {
+			for _, ins := range b.Instrs {
+				if ret, ok := ins.(*ssa.Return); ok {
+					nret++
+					if len(ret.Results) != 1 || !sortedByNameAt(callee, ret.Results[0], ret, depth+1) {
+						return false
+					}
+				}
+			}
+		}
+		return nret > 0
+	}
+	return false
+}
+
 func sortArgType(arg ssa.Value) string {
 	if mi, ok := arg.(*ssa.MakeInterface); ok {
 		return mi.X.Type().String()
@@ -451,27 +508,9 @@ func opListSorted(r *core.Run, prog *core.Program, prop string, opField *types.V
 					r.OK(prop+"/SORTED", inst, pos, "loader: order is the saved order")
 					continue
 				}
-				sorted := false
-				for _, b2 := range fn.Blocks {
-					for _, i2 := range b2.Instrs {
-						call, ok := i2.(*ssa.Call)
-						if !ok {
-							continue
-						}
-						callee := call.Call.StaticCallee()
-						if callee == nil || callee.Pkg == nil || callee.Pkg.Pkg.Path() != "sort" || (callee.Name() != "Sort" && callee.Name() != "Stable") {
-							continue
-						}
-						if len(call.Call.Args) != 1 {
-							continue
-						}
-						if sortedValue(call.Call.Args[0]) == stripConv(st.Val) && strings.HasSuffix(sortArgType(call.Call.Args[0]), "ByName") && instrDominates(call, st) {
-							sorted = true
-						}
-					}
-				}
+				sorted := sortedByNameAt(fn, st.Val, st, 0)
 				if sorted {
-					r.OK(prop+"/SORTED", inst, pos, "sort.Sort(ByName(v)) on the stored slice dominates the store")
+					r.OK(prop+"/SORTED", inst, pos, "sort.Sort(ByName(v)) on the stored slice dominates the store (or every return of the helper that built it)")
 				} else {
 					r.Violation(prop+"/SORTED", inst, pos, fmt.Sprintf("%s stores an opcode list into Conproc.Op that was not sorted by name on every path (no sort.Sort(ByName(v)) of the very slice stored dominates the store): opcode numbering — the index in Op — then depends on collection order, and Write_opcodes_verilog/Decode_opcode/OnlyOne assume a name-sorted list", core.SSAFuncKey(fn)))
 				}
